@@ -258,6 +258,13 @@ def prove(prop_id, extra_targets=()):
         for name, msg in sorted(errs.items()):
             if any(re.search(r"\b%s\b" % re.escape(i), texts) for i in _consts.idents_of(name)):
                 r.problems.append("translator: %s can no longer be extracted from the source (%s)" % (name, msg))
+    # transcription pins: the Rust items the hand-written model was transcribed from must still have the text it was transcribed from
+    # (comments and whitespace apart); an edited item is a broken obligation, and the correspondence run then looks for a failing input
+    import pins as _pins
+    pin_problems = _pins.check(REPO, prop_id)
+    r.problems += pin_problems
+    r.consts = dict(r.consts)
+    r.consts["transcription_pins"] = {"items": len(_pins.SPEC.get(prop_id, [])), "edited": len(pin_problems)}
     names_all = []
     for f in files:
         names_all += theorems_in(f)
